@@ -26,6 +26,10 @@ REQUIRED_HOOKS = [
     "op:tf_session",
     "op:localgrid",
     "op:ang_size_degree",
+    "op:aborted",
+    "aborted:by-warning",
+    "aborted:first-construction-of-that-degree",
+    "aborted:degree-already-cached",
     "request:size-with-explicit-degree",
     "request:size-alone-default-degree",
     "warmup:via-AngularGrid",
@@ -40,7 +44,7 @@ REQUIRED_HOOKS = [
     "observe:cache-off",
     "cache-walk",
 ]
-REQUIRED_FAMILIES = ["aliasing-witness", "size-overrides-degree", "transform-reuse", "mixed", "angular-edit", "atom-mol", "transform", "tables"]
+REQUIRED_FAMILIES = ["aliasing-witness", "aborted-by-warning", "size-overrides-degree", "transform-reuse", "mixed", "angular-edit", "atom-mol", "transform", "tables"]
 BUDGET = {"quick": 400, "thorough": 3600}
 RULE = (
     "One case = one random HISTORY of 10-40 operations executed on the real library inside a worker process whose module-level "
@@ -70,6 +74,11 @@ RULE = (
     "Python or NumPy int) with cache on and off - the result must report the size-resolved row and equal its shipped file AND the reference produced by a COLD process "
     "(fresh interpreter, cache=False throughout, one per worker at start-up); re-constructions after edits also mix size= with an earlier (cached) degree; AtomGrid sizes= is "
     "also given together with an (ignored) degrees list; "
+    "ABORTED constructions (op aborted + deterministic family aborted-by-warning: Lebedev 13/25/27 x 8 routes x first-construction-of-that-degree / already cached): "
+    "AngularGrid (by degree, by a degree rounding up to it, by size), AtomGrid (degrees, sizes), MolGrid (constructor, from_size) with cache on, or the first PowerRTransform.transform "
+    "of an instance, executed inside warnings.catch_warnings()+simplefilter('error') with any Warning swallowed by the caller (the documented negative-weights / size-is-used / "
+    "power<2 warnings abort the call midway); the aborted call decides nothing, filters are restored, then the usual observations decide: the degrees involved are constructed again "
+    "with cache on and off and must equal the shipped file and the cold-process reference, the atomic grid is re-built and compared; warning degrees are drawn with probability 0.75; "
     "load_atomic_gaussian_params(symbol|number); get_cov_radii; <METHOD>_CACHE.clear(). "
     "After EVERY operation: (a) structural walk of the discovered module-level caches against the shipped files (evidence; a corrupt "
     "entry aims an API observation at it); (b) deciding, API only: the objects the operation concerns are constructed again with cache on AND "
@@ -82,6 +91,8 @@ RULE = (
     "not, runs first in every tier). A history is non-trivial when at least one deciding comparison was made."
 )
 ASSUMPTIONS = [
+    "a call aborted by a warning raised as an exception may leave no object behind, but must not change what later calls return (b of a transform is inferred from the first array "
+    "SEEN, also when that call was then aborted by the power<2 warning: the library and the model agree on that)",
     "when both degree and size are given, size decides (AngularGrid docstring: 'If both degree and size are given, size is used'); the cold-process reference is the library's own answer "
     "in a fresh interpreter that never caches (second reference next to the shipped file, not a replacement for it)",
     "model of an angular grid = the shipped npz read by the harness (weights x 4pi for lebedev/spherical); exactness of those files is C02's subject",
@@ -101,13 +112,13 @@ TECHNIQUE = "runtime monitoring: history monitor with absolute reference model (
 METHODS = ["lebedev", "spherical", "maxdet", "ahrens_beylkin"]
 SIZE_CAP_ANG = {"lebedev": 1202, "spherical": 1000, "maxdet": 1700, "ahrens_beylkin": 800}
 SIZE_CAP_SHELL = {"lebedev": 350, "spherical": 330, "maxdet": 400, "ahrens_beylkin": 320}
-OPS = ["ang_new", "edit", "atom_new", "shell", "integrate", "mol_new", "tf_new", "tf_call", "gauss", "cov", "cache_clear", "tf_session", "localgrid", "sph", "ang_size_degree"]
+OPS = ["ang_new", "edit", "atom_new", "shell", "integrate", "mol_new", "tf_new", "tf_call", "gauss", "cov", "cache_clear", "tf_session", "localgrid", "sph", "ang_size_degree", "aborted"]
 WEIGHTS = {
-    "mixed": [5, 7, 3, 3, 2, 1, 1.5, 4, 2, 1, 0.4, 2, 1, 0.7, 2],
-    "angular-edit": [7, 8, 1, 1, 1, 0, 0, 0, 0, 0, 0.6, 0, 0.7, 0, 3],
-    "atom-mol": [2, 8, 5, 4, 2, 2.5, 0, 0, 0, 0, 0.3, 0, 1.5, 1, 1.5],
-    "transform": [0.5, 3, 0, 0, 0, 0, 2, 8, 0, 0, 0, 5, 0, 0, 0],
-    "tables": [0.5, 5, 0, 0, 0, 0, 0, 0, 5, 3, 0, 0, 0, 0, 0],
+    "mixed": [5, 7, 3, 3, 2, 1, 1.5, 4, 2, 1, 0.4, 2, 1, 0.7, 2, 2],
+    "angular-edit": [7, 8, 1, 1, 1, 0, 0, 0, 0, 0, 0.6, 0, 0.7, 0, 3, 3],
+    "atom-mol": [2, 8, 5, 4, 2, 2.5, 0, 0, 0, 0, 0.3, 0, 1.5, 1, 1.5, 2.5],
+    "transform": [0.5, 3, 0, 0, 0, 0, 2, 8, 0, 0, 0, 5, 0, 0, 0, 0.7],
+    "tables": [0.5, 5, 0, 0, 0, 0, 0, 0, 5, 3, 0, 0, 0, 0, 0, 0],
 }
 SHARE = {"mixed": 0.40, "angular-edit": 0.20, "atom-mol": 0.20, "transform": 0.12, "tables": 0.08}
 COST = {"mixed": 1.0, "angular-edit": 0.8, "atom-mol": 1.6, "transform": 0.4, "tables": 0.3}
@@ -130,6 +141,8 @@ SESSION_CLASSES = [
     "InverseRTransform",
 ]
 FWD4 = ["transform", "deriv", "deriv2", "deriv3"]
+NEG_LEBEDEV = [13, 25, 27]  # Lebedev degrees with negative weights: their construction emits a (documented) warning
+ABORT_ROUTES = ["ang-degree", "ang-rounded-degree", "ang-size", "atom-degrees", "atom-sizes", "mol", "mol-from-size", "power-transform"]
 ELEMENTS = {"H": 1, "C": 6, "N": 7, "O": 8, "Cl": 17}
 MAX_LIVE = 14
 _cov_snapshot = {}
@@ -151,6 +164,13 @@ def cases(tier, seed):
             for via in ("ang", "atom"):
                 for k in range(1 if tier == "quick" else 8):
                     out.append(("size-overrides-degree", {"method": m, "warm": warm, "via": via, "k": k, "hid": 62000 + j}, 30.0))
+                    j += 1
+    j = 0
+    for d in NEG_LEBEDEV:
+        for route in ABORT_ROUTES:
+            for first in (True, False):
+                for k in range(1 if tier == "quick" else 4):
+                    out.append(("aborted-by-warning", {"degree": d, "route": route, "first": first, "k": k, "hid": 63000 + j}, 40.0))
                     j += 1
     nrep = 6 if tier == "quick" else 60
     j = 0
@@ -302,7 +322,7 @@ class History:
             if not gd.ok:
                 continue
             self.ctx.hit("observe:cache-on" if cache else "observe:cache-off")
-            H.check_angular(self.ctx, "angular-equals-shipped", subj, g, method, deg, size, extra={"observed_after": why, "hist": self.hid, "op": self.op})
+            H.check_request(self.ctx, subj, g, method, deg, size, detail={"observed_after": why, "hist": self.hid, "op": self.op})
 
     def build_atom(self, spec):
         from grid.atomgrid import AtomGrid
@@ -1402,6 +1422,97 @@ class History:
         if last is not None:
             self.add({"kind": "ang", "obj": last[0], "method": method, "deg": last[1], "size": last[2], "label": f"AngularGrid[{method}]"})
 
+    def op_aborted(self, degree=None, route=None, first=None):
+        """A construction (cache on) that may be ABORTED midway by a documented warning: it runs inside
+        ``warnings.catch_warnings(); warnings.simplefilter("error")`` and any Warning raised is swallowed by the caller.
+        The aborted call itself decides nothing; the usual observations afterwards (normal filters) do."""
+        import warnings
+
+        import grid.rtransform as rt
+        from grid.angular import AngularGrid
+        from grid.atomgrid import AtomGrid
+        from grid.basegrid import OneDGrid
+        from grid.becke import BeckeWeights
+        from grid.molgrid import MolGrid
+
+        rng, ctx = self.rng, self.ctx
+        route = route or ABORT_ROUTES[int(rng.integers(len(ABORT_ROUTES)))]
+        method = "lebedev"
+        if degree is None:
+            if rng.random() < 0.75:
+                degree = NEG_LEBEDEV[int(rng.integers(3))]
+            else:
+                method = METHODS[int(rng.integers(4))]
+                degree = int(_pool(method, SIZE_CAP_SHELL[method])[int(rng.integers(len(_pool(method, SIZE_CAP_SHELL[method]))))][0])
+        d, s = (int(v) for v in datafiles.resolve(method, degree=degree))
+        first = bool(rng.random() < 0.5) if first is None else first
+        cname = H.datafiles.CODE_TABLES[method] + "_CACHE"
+        if first:
+            H.clear_cache(cname)  # user-level: the next construction of this degree is the first one (cache miss -> fill)
+            ctx.hit("aborted:first-construction-of-that-degree")
+        else:
+            with self.guard(f"AngularGrid[{method}] cache=on") as gd0:
+                g0 = AngularGrid(degree=d, method=method, cache=True)  # normal filters: the degree is cached already
+            if gd0.ok:
+                H.check_request(ctx, f"AngularGrid[{method}] cache=on", g0, method, d, s, detail={"hist": self.hid, "op": self.op})
+            ctx.hit("aborted:degree-already-cached")
+        rg = OneDGrid(np.array([0.4, 1.1, 2.3]), np.array([0.3, 0.5, 0.7]), (0, np.inf))
+        other = _pool(method, SIZE_CAP_SHELL[method])
+        d1, s1 = (int(v) for v in other[int(rng.integers(len(other)))])
+        d2, s2 = (int(v) for v in other[int(rng.integers(len(other)))])
+        spec = {"method": method, "r": np.array(rg.points), "wr": np.array(rg.weights), "mode": "degrees", "rows": [(d1, s1), (d, s), (d2, s2)], "centre": None, "rotate": 0, "kw": {"degrees": [d1, d, d2], "method": method}}
+        rec_tf = None
+        built, aborted = None, None
+        subj = f"aborted-construction[{route}]"
+        with warnings.catch_warnings():
+            warnings.simplefilter("error")
+            with self.guard(subj):
+                try:
+                    if route == "ang-degree":
+                        built = ("ang", AngularGrid(degree=d, method=method, cache=True))
+                    elif route == "ang-rounded-degree":
+                        lower = max(0, d - 1)
+                        if datafiles.resolve(method, degree=lower)[0] != d:
+                            lower = d
+                        built = ("ang", AngularGrid(degree=lower, method=method, cache=True))
+                    elif route == "ang-size":
+                        prev = max([r[1] for r in datafiles.table(method) if r[1] < s] + [0])
+                        built = ("ang", AngularGrid(size=int(rng.integers(prev + 1, s + 1)), method=method, cache=True))
+                    elif route == "atom-degrees":
+                        built = ("atom", AtomGrid(rg, degrees=[d1, d, d2], method=method))
+                    elif route == "atom-sizes":
+                        built = ("atom", AtomGrid(rg, sizes=[s1, s, s2], method=method))
+                    elif route == "mol":
+                        ats = [AtomGrid(rg, degrees=[d1, d, d2], center=np.array(c), method=method) for c in ([0.0, 0.0, 0.0], [0.0, 0.0, 1.4])]
+                        built = ("other", MolGrid(np.array([1, 1]), ats, BeckeWeights(order=3), store=True))
+                    elif route == "mol-from-size":
+                        built = ("other", MolGrid.from_size(np.array([1, 8]), np.array([[0.0, 0.0, 0.0], [0.0, 0.0, 1.8]]), s, rgrid=rg))
+                    else:  # power-transform: PowerRTransform warns when its exponent is < 2, AFTER it inferred b
+                        x = np.arange(int(rng.integers(8, 13)), dtype=float)
+                        rec_tf = {"kind": "tf", "cls": "PowerRTransform", "args": (0.1, float(rng.uniform(2.0, 6.0))), "b": np.max(x), "infer": True}
+                        rec_tf["obj"] = rt.PowerRTransform(*rec_tf["args"])
+                        built = ("other", rec_tf["obj"].transform(x))
+                except Warning as w:
+                    aborted = type(w).__name__
+        # ------------------------------------------------------------------ normal filters from here on
+        ctx.hit("op:aborted")
+        ctx.count(f"class:aborted:{route}:{'first' if first else 'cached-before'}:{'aborted:' + aborted if aborted else 'completed'}")
+        if aborted:
+            ctx.hit("aborted:by-warning")
+        self.log.append(f"aborted({route},{d},{'first' if first else 'later'},{aborted})")
+        why = f"a construction ({route}, degree {d}) under warnings-as-errors " + (f"aborted by {aborted}" if aborted else "that completed")
+        if built is not None and built[0] == "ang":
+            H.check_request(ctx, f"AngularGrid[{method}] cache=on", built[1], method, d, s, detail={"hist": self.hid, "op": self.op, "under": "warnings-as-errors"})
+        elif built is not None and built[0] == "atom" and route == "atom-degrees":
+            self.check_atom("atomgrid-product-identity", f"AtomGrid[{method}:degrees]", built[1], spec, attributes=True)
+        for dd, ss in {(d, s), (d1, s1), (d2, s2)}:
+            self.touched[(method, dd, ss)] = True
+            self.observe_angular(method, dd, ss, why)
+        self.observe_atom(spec, why)
+        if rec_tf is not None:
+            self.tfs.append(rec_tf)
+            self.observe_tf(rec_tf, why)
+
     def op_localgrid(self):
         """LocalGrid objects (MolGrid.get_atomic_grid / MolGrid[i] / Grid.get_localgrid): their arrays, centre and indices
         become edit targets; they share state with their parent by design (same group)."""
@@ -1529,6 +1640,15 @@ def run_case(ctx, family, params):
         h = History(ctx, params["hid"], family)
         h.op += 1
         h.op_ang_size_degree(method=params["method"], wkind=params["warm"], via=params["via"], exhaustive=True)
+        h.op += 1
+        h.finish()
+        ctx.case_note("ops", h.log[:12])
+        return None
+    if family == "aborted-by-warning":
+        h = History(ctx, params["hid"], family)
+        for _ in range(2):
+            h.op += 1
+            h.op_aborted(degree=params["degree"], route=params["route"], first=params["first"])
         h.op += 1
         h.finish()
         ctx.case_note("ops", h.log[:12])
